@@ -2,6 +2,8 @@ import RbV.Basic.Codec
 import RbV.Ref.SA
 import RbV.Model.Kasai
 import RbV.Model.Sus
+import RbV.Model.SampledSA
+import RbV.Model.OccTable
 /-! Driver for property C03 (suffix array, LCP, shortest unique substrings, sampled suffix array).
 
 `c03 sa <text>                     => <sa>`                   accepted iff `checkSA text sa`
@@ -96,7 +98,18 @@ def verdict (toks : List String) (out : String) : String :=
           match (combos.zip gs).find? (fun x => x.2 ≠ want) with
           | some ((s, k), _) => "diff samp s:" ++ toString s ++ " k:" ++ toString k ++ " " ++ showNatList sa
           | none =>
-            "ok" ++ (if t.length ≥ 4 then " nt" else "") ++ " samp"
+            -- run the mirror model of sample()/get() on the mirror models of less(), Occ::new, Occ::get
+            let bwt := bwtRef t sa
+            let sent := sentinelOf t
+            let mx := t.foldl max 0
+            let lessA := OccM.lessModel bwt (mx + 2)
+            let alpha := t.eraseDups
+            let rows := List.range t.length
+            let drift := combos.any (fun (s, k) =>
+              let table := OccM.occTable bwt k alpha (mx + 1)
+              let occF := fun (r c : Nat) => OccM.occGet ((table[c]?).getD []) bwt k r c
+              rows.map (Sampled.sampledGet bwt sa s sent lessA occF) ≠ want)
+            "ok" ++ (if t.length ≥ 4 then " nt" else "") ++ " samp" ++ (if drift then " drift" else "")
               ++ (if sentCount t ≥ 2 then " multi-sent" else "")
               ++ (if ks.any (· > 64) then " k>64" else "")
               ++ (if ss.any (· ≥ t.length) then " s>=n" else "")
